@@ -2,7 +2,7 @@ SPECIFICATION Spec
 CONSTANTS
   Nodes = {"n1", "n2", "n3", "n4"}
   Weights = {0, 1, 2}
-  Kinds = {"ll", "rnd"}
+  Kinds = {"ll"}
   Presets = {0}
   Hi = 2
   Lo = 4
